@@ -25,6 +25,8 @@ impl<'g> Cx<'g> {
                 let mut en = segs[n - 2].clone();
                 if en == "Self" {
                     en = self.self_ty.clone()?;
+                } else {
+                    en = self.g.tkey(&self.file, &en);
                 }
                 let e = self.g.enums.get(&en)?;
                 if e.variants.iter().any(|v| v.name == segs[n - 1]) {
@@ -139,15 +141,26 @@ impl<'g> Cx<'g> {
                 self.bail(p.span(), "unsupported struct pattern")
             }
             syn::Pat::Or(o) => {
+                // every alternative must bind the same variables with the same types (as in Rust)
                 let mut parts = Vec::new();
+                let mut binds: Option<Vec<(String, Ty)>> = None;
                 for c in &o.cases {
                     let (s, b) = self.pat(c, scrut)?;
-                    if !b.is_empty() {
-                        return self.bail(p.span(), "bindings inside an or-pattern are not supported");
+                    let mut sorted = b.clone();
+                    sorted.sort_by(|x, y| x.0.cmp(&y.0));
+                    match &binds {
+                        None => binds = Some(b),
+                        Some(first) => {
+                            let mut f = first.clone();
+                            f.sort_by(|x, y| x.0.cmp(&y.0));
+                            if format!("{:?}", f) != format!("{:?}", sorted) {
+                                return self.bail(p.span(), "the alternatives of an or-pattern bind different variables");
+                            }
+                        }
                     }
                     parts.push(s);
                 }
-                Ok((parts.join(" | "), vec![]))
+                Ok((parts.join(" | "), binds.unwrap_or_default()))
             }
             syn::Pat::Tuple(t) => {
                 let tys = match scrut {
